@@ -28,7 +28,10 @@ impl<F: Field> PolynomialCoeffs<F> {
             let rev_q: Self = (&rev_b_inv * &rhs).coeffs[..=a_degree_plug_1 - b_degree_plus_1]
                 .to_vec()
                 .into();
-            let mut q = rev_q.rev();
+            // `rev_q` holds exactly `deg(a) - deg(b) + 1` coefficients, highest degree first.
+            // Reverse it as it is: `rev()` would trim first and thereby drop low-order zero
+            // coefficients of the quotient.
+            let mut q: Self = rev_q.coeffs.into_iter().rev().collect::<Vec<_>>().into();
             let qb = &q * b;
             let mut r = self - &qb;
             q.trim();
@@ -125,6 +128,9 @@ impl<F: Field> PolynomialCoeffs<F> {
             if b.len() > l {
                 b.coeffs.drain(l..);
             }
+            // The correction occupies the coefficients of x^l .. x^(2l - 1): keep it aligned
+            // when its high coefficients are zero.
+            b.coeffs.resize(l, F::ZERO);
             a.coeffs.extend_from_slice(&b.coeffs);
         }
         a.coeffs.drain(n..);
